@@ -86,6 +86,7 @@ static int extendingPermittedVerification(KSI_VerificationContext *info, KSI_Rul
 static int getNextLink(KSI_HashChainLinkList *list, bool getRight, size_t *pos, KSI_HashChainLink **link);
 #define getNextRightLink(list, pos, link) getNextLink((list), true, (pos), (link))
 #define getNextLeftLink(list, pos, link) getNextLink((list), false, (pos), (link))
+static time_t timeOf(KSI_uint64_t t);
 static bool wasDeprecatedAt(KSI_HashAlgorithm algorithm, time_t at);
 static bool wasObsoleteAt(KSI_HashAlgorithm algorithm, time_t at);
 static int calendarChainAggrAlgorithmState(KSI_CTX *ctx, const KSI_CalendarHashChain *calHshChain, bool (*inspector)(KSI_HashAlgorithm, time_t), bool *status);
@@ -235,7 +236,7 @@ int KSI_VerificationRule_AggregationChainInputHashAlgorithmVerification(KSI_Veri
 		goto cleanup;
 	}
 
-	res = KSI_checkHashAlgorithmAt(algId, (time_t)KSI_Integer_getUInt64(signTime));
+	res = KSI_checkHashAlgorithmAt(algId, timeOf(KSI_Integer_getUInt64(signTime)));
 	switch (res) {
 		case KSI_OK:
 		case KSI_UNKNOWN_HASH_ALGORITHM_ID:
@@ -364,7 +365,7 @@ int KSI_VerificationRule_Rfc3161RecordOutputHashAlgorithmVerification(KSI_Verifi
 		goto cleanup;
 	}
 
-	res = KSI_checkHashAlgorithmAt(algorithm, (time_t)KSI_Integer_getUInt64(aggrTime));
+	res = KSI_checkHashAlgorithmAt(algorithm, timeOf(KSI_Integer_getUInt64(aggrTime)));
 	switch (res) {
 		case KSI_OK:
 		case KSI_UNKNOWN_HASH_ALGORITHM_ID:
@@ -431,7 +432,7 @@ int KSI_VerificationRule_Rfc3161RecordHashAlgorithmVerification(KSI_Verification
 		goto cleanup;
 	}
 
-	res = KSI_checkHashAlgorithmAt((KSI_HashAlgorithm)KSI_Integer_getUInt64(algorithm), (time_t)KSI_Integer_getUInt64(aggrTime));
+	res = KSI_checkHashAlgorithmAt((KSI_HashAlgorithm)KSI_Integer_getUInt64(algorithm), timeOf(KSI_Integer_getUInt64(aggrTime)));
 	switch (res) {
 		case KSI_OK:
 		case KSI_UNKNOWN_HASH_ALGORITHM_ID:
@@ -459,7 +460,7 @@ int KSI_VerificationRule_Rfc3161RecordHashAlgorithmVerification(KSI_Verification
 		goto cleanup;
 	}
 
-	res = KSI_checkHashAlgorithmAt((KSI_HashAlgorithm)KSI_Integer_getUInt64(algorithm), (time_t)KSI_Integer_getUInt64(aggrTime));
+	res = KSI_checkHashAlgorithmAt((KSI_HashAlgorithm)KSI_Integer_getUInt64(algorithm), timeOf(KSI_Integer_getUInt64(aggrTime)));
 	switch (res) {
 		case KSI_OK:
 		case KSI_UNKNOWN_HASH_ALGORITHM_ID:
@@ -1107,7 +1108,7 @@ int KSI_VerificationRule_AggregationChainHashAlgorithmVerification(KSI_Verificat
 			goto cleanup;
 		}
 
-		res = KSI_checkHashAlgorithmAt((KSI_HashAlgorithm)KSI_Integer_getUInt64(algorithm), (time_t)KSI_Integer_getUInt64(aggrTime));
+		res = KSI_checkHashAlgorithmAt((KSI_HashAlgorithm)KSI_Integer_getUInt64(algorithm), timeOf(KSI_Integer_getUInt64(aggrTime)));
 		switch (res) {
 			case KSI_OK:
 			case KSI_UNKNOWN_HASH_ALGORITHM_ID:
@@ -1715,6 +1716,14 @@ cleanup:
 	return res;
 }
 
+/* A time from a signature as time_t. A value beyond the range of time_t (it would turn into a date
+ * before 1970) is taken as the last representable moment: it is later than any date an algorithm
+ * changes its status at. */
+static time_t timeOf(KSI_uint64_t t) {
+	const KSI_uint64_t last = (((KSI_uint64_t)1) << (sizeof(time_t) * 8 - 1)) - 1;
+	return (time_t)(t > last ? last : t);
+}
+
 static bool wasDeprecatedAt(KSI_HashAlgorithm algorithm, time_t at) {
 	int res = KSI_UNKNOWN_ERROR;
 	res = KSI_checkHashAlgorithmAt(algorithm, at);
@@ -1774,7 +1783,7 @@ static int calendarChainAggrAlgorithmState(KSI_CTX *ctx, const KSI_CalendarHashC
 			goto cleanup;
 		}
 
-		if (inspector(algId, (time_t)KSI_Integer_getUInt64(pubTime))) {
+		if (inspector(algId, timeOf(KSI_Integer_getUInt64(pubTime)))) {
 			*status = true;
 			res = KSI_OK;
 			goto cleanup;
